@@ -436,53 +436,11 @@ pub fn disturbance_pass<T: Sync>(
         let id = run.id.clone();
         return run.violation(&format!("{}.after_disturbance", id), &format!("{} ; {}", name, sig), json!({"disturbance": name, "clause": clause, "case": case}), &format!("right after the calls of the disturbance '{}': {}", name, m));
     }
-    // repetition: the same item over and over (hit counters, entries that change after N hits), then
-    // every item once
+    // repetition: the same item over and over, then every item once
     {
         let len = items.len();
-        let picks: Vec<usize> = [0usize, len / 7, len / 3, len / 2, (2 * len) / 3, len - 1].iter().map(|i| (*i).min(len - 1)).collect();
-        let reps: usize = 66_000;
-        let mut cnt = 0u64;
-        let mut bad: Option<(usize, usize, usize, String)> = None;
-        'outer: for (pi, &i) in picks.iter().enumerate() {
-            // the last pick is repeated fewer times when checks are expensive items lists are long
-            let n = if pi < 3 { reps } else { 1100 };
-            for r in 0..n {
-                cnt += 1;
-                match guard(|| check(&items[i])) {
-                    Ok(Ok(())) => {}
-                    Ok(Err(m)) => {
-                        bad = Some((i, i, r, m));
-                        break 'outer;
-                    }
-                    Err(p) => {
-                        bad = Some((i, i, r, format!("panicked: {}", p)));
-                        break 'outer;
-                    }
-                }
-            }
-            for (j, b) in items.iter().enumerate() {
-                cnt += 1;
-                match guard(|| check(b)) {
-                    Ok(Ok(())) => {}
-                    Ok(Err(m)) => {
-                        bad = Some((i, j, n, m));
-                        break 'outer;
-                    }
-                    Err(p) => {
-                        bad = Some((i, j, n, format!("panicked: {}", p)));
-                        break 'outer;
-                    }
-                }
-            }
-        }
-        run.generator("one item checked 66,000 (1,100) times in a row, then every item", "repetition soak (histories)", Some(cnt), cnt, cnt, "6 items spread over the list; hit counters, entries that change after N hits");
-        if let Some((i, j, r, m)) = bad {
-            let (clause, case, sig) = to_case(&items[j]);
-            let (_, rep_case, rep_sig) = to_case(&items[i]);
-            let id = run.id.clone();
-            return run.violation(&format!("{}.after_repetition", id), &format!("{} x{} ; {}", rep_sig, r, sig), json!({"repeat": rep_case, "times": r, "clause": clause, "case": case}), &format!("after the item {} had been checked {} times in a row: {}", rep_sig, r, m));
-        }
+        let picks: Vec<(usize, usize)> = [0usize, len / 7, len / 3, len / 2, (2 * len) / 3, len - 1].iter().enumerate().map(|(pi, i)| ((*i).min(len - 1), if pi < 3 { 66_000 } else { 1100 })).collect();
+        repetition_soak(run, items, &picks, check, to_case)?;
     }
     // concurrent phase
     const THREADS: usize = 8;
@@ -569,6 +527,61 @@ pub fn disturbance_pass<T: Sync>(
         let alone = check(&items[i]);
         let note = if alone.is_ok() { " — the same check passes when repeated on one thread: the result depends on what other threads are doing" } else { "" };
         return run.violation(&format!("{}.concurrent", id), &sig, json!({"clause": clause, "case": case}), &format!("while 8 threads were calling the API at the same time: {}{}", m, note));
+    }
+    Ok(())
+}
+
+/// Repetition soak: each picked item is checked `times` times in a row (every call checked), then
+/// every item once: hit counters that overflow into the payload or into a neighbouring key, entries
+/// that change after the N-th hit. Reported as `<ID>.after_repetition`.
+pub fn repetition_soak<T: Sync>(
+    run: &mut Run,
+    items: &[T],
+    picks: &[(usize, usize)],
+    check: &(dyn Fn(&T) -> Result<(), String> + Sync),
+    to_case: &dyn Fn(&T) -> (String, Value, String),
+) -> PResult {
+    if run.is_twin() {
+        return Ok(());
+    }
+    let mut cnt = 0u64;
+    let mut bad: Option<(usize, usize, usize, String)> = None;
+    'outer: for &(i, n) in picks.iter() {
+        for r in 0..n {
+            cnt += 1;
+            match guard(|| check(&items[i])) {
+                Ok(Ok(())) => {}
+                Ok(Err(m)) => {
+                    bad = Some((i, i, r, m));
+                    break 'outer;
+                }
+                Err(p) => {
+                    bad = Some((i, i, r, format!("panicked: {}", p)));
+                    break 'outer;
+                }
+            }
+        }
+        for (j, b) in items.iter().enumerate() {
+            cnt += 1;
+            match guard(|| check(b)) {
+                Ok(Ok(())) => {}
+                Ok(Err(m)) => {
+                    bad = Some((i, j, n, m));
+                    break 'outer;
+                }
+                Err(p) => {
+                    bad = Some((i, j, n, format!("panicked: {}", p)));
+                    break 'outer;
+                }
+            }
+        }
+    }
+    run.generator(&format!("{} items checked many times in a row (up to {}), each followed by a pass over every item", picks.len(), picks.iter().map(|p| p.1).max().unwrap_or(0)), "repetition soak (histories)", Some(cnt), cnt, cnt, "hit counters, entries that change after N hits");
+    if let Some((i, j, r, m)) = bad {
+        let (clause, case, sig) = to_case(&items[j]);
+        let (_, rep_case, rep_sig) = to_case(&items[i]);
+        let id = run.id.clone();
+        return run.violation(&format!("{}.after_repetition", id), &format!("{} x{} ; {}", rep_sig, r, sig), json!({"repeat": rep_case, "times": r, "clause": clause, "case": case}), &format!("after the item {} had been checked {} times in a row: {}", rep_sig, r, m));
     }
     Ok(())
 }
